@@ -244,13 +244,14 @@ def main(argv=None):
     for f in found:
         by_key.setdefault(f["key"], f)
 
-    os.makedirs(os.path.join(ROOT, "replays"), exist_ok=True)
-    os.makedirs(os.path.join(ROOT, "evidence"), exist_ok=True)
+    OUT = os.environ.get("VERIF_OUT") or ROOT  # mutation runs redirect evidence/replays away from /verif
+    os.makedirs(os.path.join(OUT, "replays"), exist_ok=True)
+    os.makedirs(os.path.join(OUT, "evidence"), exist_ok=True)
     head = lib.repo_head()
     lines = []
     for key, f in sorted(by_key.items()):
         path = os.path.join("replays", f"{pid}-{_sanitize(key)}-s{seed}.json")
-        with open(os.path.join(ROOT, path), "w", encoding="utf-8") as fh:
+        with open(os.path.join(OUT, path), "w", encoding="utf-8") as fh:
             json.dump({"property": pid, "part": f["part"], "key": key, "message": f["message"],
                        "details": f["details"], "case": f["case"], "seed": seed, "tier": tier,
                        "repo_head": head}, fh, indent=1, default=str)
@@ -295,7 +296,7 @@ def main(argv=None):
         "violations": len(by_key),
     }
     if not a.parts:
-        with open(os.path.join(ROOT, "evidence", f"{pid}.json"), "w", encoding="utf-8") as fh:
+        with open(os.path.join(OUT, "evidence", f"{pid}.json"), "w", encoding="utf-8") as fh:
             json.dump(ev, fh, indent=1, default=str)
 
     print(f"[{pid}] tier={tier} seed={seed} evaluations={merged.evaluations} "
